@@ -18,7 +18,7 @@ RULE = ("(a) schedules (source-line granularity) of {accept thread submitting 2-
 ASSUMPTIONS = ["scheduling points are source lines of Pool/Worker methods and the job body; CPython can also switch between bytecodes of one line",
                "a job accepted just before a racing close() may be dropped (the statement's 'starts no further job'); only runs without close require every accepted job to run",
                "a refusal is illegitimate only if accepted-minus-completed(notify_done returned) < THREADPOOL_SIZE at process() entry"]
-REQUIRED_REACH = ["schedules_explored", "jobs_executed", "refusals_seen", "closes_completed", "socket_clients_served", "socket_clients_refused", "unix_socket_runs"]
+REQUIRED_REACH = ["schedules_explored", "jobs_executed", "refusals_seen", "closes_completed", "socket_clients_served", "socket_clients_refused", "unix_socket_runs", "proxy_retries_after_refusal"]
 SHARD_TIMEOUT = {"quick": 240, "thorough": 3000}
 
 
@@ -276,7 +276,34 @@ def socket_run(P, rec, r, size, nclients, inject, unix=False):
     if inject:
         yieldinj.enable(("Pyro5/svr_threads.py",), 0.05, r.getrandbits(30), max_sleep=0.003)
 
+    def proxy_client(i, delay, hold):
+        """a client that uses ONE Proxy object and simply tries again after a refusal: every attempt is served or refused with the reason"""
+        time.sleep(delay)
+        p = fx.proxy("svc", serializer="marshal", timeout=20.0)
+        try:
+            for attempt in range(4):
+                tok = "c%d" % i if attempt == 0 else "c%d.%d" % (i, attempt)
+                try:
+                    a = p.enter(tok)
+                    time.sleep(hold)
+                    b = p.leave(tok)
+                    results.append((tok, "served", a, b))
+                    return
+                except P.errors.CommunicationError as x:
+                    if "no free workers" in str(x):
+                        results.append((tok, "refused", str(x), None))
+                        time.sleep(0.01 + 0.01 * attempt)
+                        continue
+                    results.append((tok, "error", "attempt %d of one Proxy object (after %d refusal(s)): %r" % (attempt + 1, attempt, x), None))
+                    return
+        except Exception as x:
+            results.append(("c%d" % i, "error", repr(x), None))
+        finally:
+            p._pyroRelease()
+
     def client(i, delay, hold):
+        if i % 4 == 3:
+            return proxy_client(i, delay, hold)
         time.sleep(delay)
         tok = "c%d" % i
         try:
@@ -286,14 +313,14 @@ def socket_run(P, rec, r, size, nclients, inject, unix=False):
                 a = c.invoke("svc", "enter", (tok,), {}, ser)
                 time.sleep(hold)
                 b = c.invoke("svc", "leave", (tok,), {}, ser)
-                results.append((i, "served", ser.loads(a.data), ser.loads(b.data)))
+                results.append((tok, "served", ser.loads(a.data), ser.loads(b.data)))
             elif m.type == wire.CONNECTFAIL:
-                results.append((i, "refused", P.serializers.serializers_by_id[m.ser].loads(m.data), None))
+                results.append((tok, "refused", P.serializers.serializers_by_id[m.ser].loads(m.data), None))
             else:
-                results.append((i, "weird", m.type, None))
+                results.append((tok, "weird", m.type, None))
             c.close()
         except Exception as x:
-            results.append((i, "error", repr(x), None))
+            results.append((tok, "error", repr(x), None))
     ts = []
     for i in range(nclients):
         t = threading.Thread(target=client, args=(i, r.random() * 0.05, r.choice([0, 0.001, 0.005, 0.02])), daemon=True)
@@ -310,21 +337,23 @@ def socket_run(P, rec, r, size, nclients, inject, unix=False):
         if hung:
             rec.inconc("%d raw clients still waiting after the 30 s watchdog (left waiting?)" % len(hung))
             return
-        for i, outcome, a, b in results:
-            rec.case(("sock", size, nclients, i, outcome))
-            tok = "c%d" % i
+        for tok, outcome, a, b in results:
+            i = tok
+            rec.case(("sock", size, nclients, tok, outcome))
+            if "." in tok:
+                rec.count("proxy_retries_after_refusal")
             if outcome == "served":
                 rec.count("socket_clients_served")
                 if a != tok or b != tok or served_tokens.get(tok) != 1:
-                    rec.violation("socket-client-misserved", "client %d: replies %r/%r, executions %r" % (i, a, b, served_tokens.get(tok)), pay)
+                    rec.violation("socket-client-misserved", "client %s: replies %r/%r, executions %r" % (i, a, b, served_tokens.get(tok)), pay)
             elif outcome == "refused":
                 rec.count("socket_clients_refused")
                 if "no free workers" not in str(a):
-                    rec.violation("refusal-without-reason", "client %d refused with %r" % (i, a), pay)
+                    rec.violation("refusal-without-reason", "client %s refused with %r" % (i, a), pay)
                 if served_tokens.get(tok):
-                    rec.violation("refused-client-served", "client %d was refused but its call ran" % i, pay)
+                    rec.violation("refused-client-served", "client %s was refused but its call ran" % i, pay)
             else:
-                rec.violation("connection-dropped-silently", "client %d neither served nor refused with a reason: %s %r" % (i, outcome, a), pay)
+                rec.violation("connection-dropped-silently", "client %s neither served nor refused with a reason: %s %r" % (i, outcome, a), pay)
         if max_active[0] > size:
             rec.violation("too-many-workers", "%d clients were served concurrently with THREADPOOL_SIZE=%d" % (max_active[0], size), pay)
         # accounting after the run
